@@ -120,8 +120,11 @@ def run_shared(pid, mode, tier, extra_trusted, unproved, assumptions):
             r.violation("driver", {"kind": "model driver failed", "out": mout[-2000:]}, no_input=True)
         for i, l in enumerate(pf[:3]):
             m = re.search(r"RUN (\d+)", l)
+            ms = re.search(r": (S (\d+) .*)$", l)
             r.violation("prop-%d" % i, {"kind": "executable mirror of a theorem fails on what the implementation returned", "what": l[:3000],
-                                        "run": run_block(lines, m.group(1)) if m else [], "replay_cmd": replay_cmd})
+                                        "run": run_block(lines, m.group(1)) if m else [],
+                                        "sequence": seq_block(lines, ms.group(2), ms.group(1)) if ms else [],
+                                        "replay_cmd": replay_cmd})
         for i, l in enumerate(mism[:3]):
             m = re.search(r"RUN (\d+)", l)
             ms = re.match(r"MISMATCH SEQ (S (\d+) .*?) // model:", l)
